@@ -44,7 +44,7 @@ func c20Tokens(msg string) []string {
 	var out []string
 	cur := ""
 	for _, r := range msg {
-		if strings.ContainsRune("qzéjß", r) {
+		if strings.ContainsRune("qzéjß€", r) {
 			cur += string(r)
 		} else if cur != "" {
 			out = append(out, cur)
@@ -61,8 +61,8 @@ func init() {
 	var namesQ, namesT, wordsQ, wordsT []string
 	namesQ = allStrings(c20Letters[:3], 1, 3)
 	namesT = allStrings(c20Letters, 1, 3)
-	wordsQ = append([]string{""}, allStrings([]string{"q", "z", "é", "ß"}, 1, 3)...)
-	wordsT = append([]string{""}, allStrings([]string{"q", "z", "é", "j", "ß"}, 1, 4)...)
+	wordsQ = append([]string{""}, allStrings([]string{"q", "z", "é", "ß", "€"}, 1, 3)...)
+	wordsT = append([]string{""}, allStrings([]string{"q", "z", "é", "j", "ß", "€"}, 1, 4)...)
 
 	body := func(c *explore.Ctx) {
 		names, words := namesQ, wordsQ
@@ -81,6 +81,7 @@ func init() {
 		}
 		mask := c.Choose(1 << uint(len(set)))
 		form := c.Choose(len(words) + 1) // 0 = no word at all (missing-command form)
+		history := c.Deviate(3)          // 0 fresh parser; 1 the parser selected a command before; 2 the hidden marks are set after a first failing parse
 		var argv []string
 		word := ""
 		if form > 0 {
@@ -98,18 +99,39 @@ func init() {
 		}
 		sort.Strings(visible)
 		c.Describe(func() interface{} {
-			return map[string]interface{}{"commands": set, "hidden_mask": mask, "argv": argv}
+			return map[string]interface{}{"commands": set, "hidden_mask": mask, "argv": argv, "history": []string{"fresh parser", "a command was selected by an earlier parse", "hidden marks set after a first failing parse"}[history]}
 		})
 
 		p := flags.NewNamedParser("app", flags.None)
 		// registration order is the reverse of sorted order so that sorting is the library's job
+		var cmds []*flags.Command
 		for i := len(set) - 1; i >= 0; i-- {
 			cmd, err := p.AddCommand(set[i], "", "", &nopCmd{})
 			if err != nil {
 				c.Fail("setup-error", err.Error())
 				return
 			}
-			cmd.Hidden = mask&(1<<uint(i)) != 0
+			cmds = append(cmds, cmd)
+			if history != 2 {
+				cmd.Hidden = mask&(1<<uint(i)) != 0
+			}
+		}
+		switch history {
+		case 1:
+			if _, err := p.ParseArgs([]string{set[len(set)-1]}); err != nil {
+				c.Fail("harness-warm-up-parse-failed", err.Error())
+				return
+			}
+		case 2:
+			p.ParseArgs([]string{"ßßßßß"}) // a first diagnosis while everything is visible
+			p.ParseArgs(nil)
+			for k, cmd := range cmds {
+				i := len(set) - 1 - k
+				cmd.Hidden = mask&(1<<uint(i)) != 0
+			}
+		}
+		if history != 0 {
+			c.Hit("used-parser")
 		}
 		_, err := p.ParseArgs(argv)
 		fe, ok := err.(*flags.Error)
@@ -195,14 +217,15 @@ func init() {
 	explore.Register(&explore.Check{
 		ID:         "C20",
 		Level:      "exploration",
-		ShardDepth: 1,
+		ShardDepth: 2,
 		Body:       body,
+		DevBound:   func(bool) int { return 1 },
 		Rule: "every set of 1..3 command names (all strings of length 1..3 over {q,z,é} quick / {q,z,é,j} thorough), every hidden mask, " +
-			"x every word (all strings <= 3 quick / <= 4 thorough over the letters plus the foreign letter ß, the empty word, and no word at all); " +
+			"x every word (all strings <= 3 quick / <= 4 thorough over the letters plus the foreign letters ß (2 bytes) and € (3 bytes), the empty word, and no word at all) x {fresh parser, parser on which an earlier parse selected a command, hidden marks changed after a first diagnosis on the same parser}; " +
 			"oracle = textbook rune Levenshtein + the < 1/2 rule; distinct = distinct (error type, names mentioned, suggestion?) observations",
 		Assumptions:  []string{"names mentioned by a message are read back as maximal runs of the alphabet letters, which do not occur in the message templates", "ties between nearest names: any minimiser accepted", "threshold accepted with the name length in bytes or in characters"},
-		RequiredHits: []string{"missing-command", "suggestion", "enumeration"},
-		Bound:        [2]string{"name sets <=3 of names <=3 over 3 letters; words <=3 over 4 letters", "name sets <=3 of names <=3 over 4 letters; words <=4 over 5 letters"},
+		RequiredHits: []string{"missing-command", "suggestion", "enumeration", "used-parser"},
+		Bound:        [2]string{"name sets <=3 of names <=3 over 3 letters; words <=3 over 5 letters", "name sets <=3 of names <=3 over 4 letters; words <=4 over 6 letters"},
 		BudgetS:      [2]int{90, 1500},
 	})
 }
